@@ -193,6 +193,43 @@ theorem top_int (i : Int) (hi : -9223372036854775800 < i ∧ i < 922337203685477
   congr 2
   by_cases hneg : i < 0 <;> simp [hneg] <;> omega
 
+/-- every int64 as the whole document: `nvInt` (at the limit a `json.Number` with the same digits) -/
+theorem top_int_all (i : Int) (hi : -9223372036854775808 ≤ i ∧ i ≤ 9223372036854775807) :
+    C10.parsesTo (fmtInt i) (nvInt i) := by
+  by_cases hmid : -9223372036854775800 < i ∧ i < 9223372036854775800
+  · have e : nvInt i = .int i := by
+      unfold nvInt; rw [if_pos ⟨by omega, hmid.2⟩]
+    rw [e]
+    exact top_int i hmid
+  · have hfin : ∀ (st' : St) (f' : Fast) (p' : Pos) (x : JV) (doc : Bytes), runBytes refTables {} {} {} {} doc = .ok (st', f', p') →
+        st'.mode = .digit → st'.num.asNum.toJV = x → st'.starts = [] → st'.stack = [] → st'.docs = [] →
+        ∃ st f p out, runBytes refTables {} {} {} {} doc = .ok (st, f, p) ∧ finish refTables {} st p = .ok out ∧ out.docs = [x] := by
+      intro st' f' p' x doc hrun m3 n3 a3 b3 c3
+      obtain ⟨out, ho, hd⟩ := finish_num st' p' (Or.inl m3) a3 b3 c3
+      exact ⟨st', f', p', out, hrun, ho, by rw [hd, n3]⟩
+    by_cases hpos : 0 ≤ i
+    · obtain ⟨k, hk, hk1, hk2⟩ := edge_text i.natAbs (by omega)
+      have htxt : fmtInt i = P18 ++ [UInt8.ofNat (48 + k)] := by
+        have : ¬ i < 0 := by omega
+        simp [fmtInt, this, hk2]
+      have e : nvInt i = .big (P18 ++ [UInt8.ofNat (48 + k)]) := by
+        unfold nvInt; rw [if_neg (by omega), htxt]
+      rw [e, htxt]
+      apply parsesTo_of_fin _ _ (bomRule_keep_head _ 57 _ rfl (by decide))
+      obtain ⟨st', f', p', hrun, m3, n3, a3, b3, c3, d3, e3⟩ := edge_run_pos k hk {} {} {} [] rfl rfl
+      rw [List.append_nil] at hrun
+      exact hfin st' f' p' _ _ hrun m3 n3 a3 b3 c3
+    · obtain ⟨k, hk, hk1, hk2⟩ := edge_text i.natAbs (by omega)
+      have hneg : i < 0 := by omega
+      have htxt : fmtInt i = 45 :: (P18 ++ [UInt8.ofNat (48 + k)]) := by
+        simp [fmtInt, hneg, hk2]
+      have hi' : i = -(9223372036854775800 + (k : Int)) := by omega
+      rw [htxt, hi']
+      apply parsesTo_of_fin _ _ (bomRule_keep_head _ 45 _ rfl (by decide))
+      obtain ⟨st', f', p', hrun, m3, n3, a3, b3, c3, d3, e3⟩ := edge_run_neg k hk {} {} {} [] rfl rfl
+      rw [List.append_nil] at hrun
+      exact hfin st' f' p' _ _ hrun m3 n3 a3 b3 c3
+
 /-! ## the theorem -/
 
 /-- **C10, a scalar as the whole document**: every scalar of the class `admVal`, every writer option, excluding
@@ -222,7 +259,7 @@ theorem C10_top_partial (o : WOpts) (io : IOpts) (v : JV) (hs : needSep v = true
   | str s =>
     obtain ⟨h1, h2⟩ : ¬ C10.reservedWord s ∧ ¬ C10.leadingSign s o.html := hadm
     exact top_str s o.html h1 h2 (hef s rfl)
-  | int i => exact top_int i hadm
+  | int i => exact top_int_all i hadm
   | flt t => exact top_num t hadm
   | big t => exact absurd hadm (by simp [admVal])
   | num t => exact absurd hadm (by simp [admVal])
@@ -234,8 +271,8 @@ theorem C10_top_valid (o : WOpts) (io : IOpts) (v : JV) (hs : needSep v = true) 
   rwa [nvVal_plain o v hplain] at h
 
 /-- non-vacuity: `1.5`, `-17`, `"a b"`, `abc`, and a bare three byte string that begins with 0xEF (U+FB01) -/
-example : C10.parsesTo (senWrite {} {} (.int (-17))) (.int (-17)) :=
-  C10_top_partial {} {} _ rfl (by simp [admVal]) (fun s h => by cases h)
+example : C10.parsesTo (senWrite {} {} (.int (-17))) (nvVal {} (.int (-17))) :=
+  C10_top_partial {} {} _ rfl (by simp only [admVal]; decide) (fun s h => by cases h)
 example : C10.parsesTo (senWrite {} { indent := 2 } (.str [0xEF, 0xAC, 0x81])) (.str (sanitize [0xEF, 0xAC, 0x81])) :=
   C10_top_partial {} _ _ rfl
     (by simp only [admVal, C10.reservedWord, C10.leadingSign]; decide +kernel)
